@@ -62,7 +62,7 @@ Theorem parent_due_no_later_push :
     gc_parent (gcfg_at T g) = Some (pg, pn) ->
     w_err w = 0 -> idle g w = true -> now_of g w <= when ->
     (pg < length (w_gs w))%nat -> (pn < length (g_slots (gat pg w)))%nat ->
-    slot_at pn (gat pg (sched_at (length T) T g i when w)) <= clamp T pg (Z.max when (now_of pg w)) w.
+    slot_at pn (gat pg (sched_at (length T) T g i when w)) <= clamp T pg (Z.max (Z.max when (now_of pg w)) (now_of 0 w)) w.
 Proof. exact push_arms_owner. Qed.
 Print Assumptions parent_due_no_later_push.
 
